@@ -36,7 +36,8 @@ where
                     .collect();
                 let mut next_pos = position.to_vec();
                 // tick through full table of index combinations
-                let mut finished = false;
+                // with no sets at all the loop below never runs: the single (empty) combination is also the last one
+                let mut finished = self.sets.is_empty();
                 for idx in 0..self.sets.len() {
                     if next_pos[idx] < self.final_pos[idx] {
                         next_pos[idx] += 1;
